@@ -1,5 +1,74 @@
-(* C18 - placeholder, filled below *)
+(* C18 - System matcher: grammar, precedence, quoting, evaluation equal the documentation;
+   every other string is rejected with ValueError.
+   Property theorems only; each is closed by a lemma from the proof files of Matcher/. *)
 From Coq Require Import String.
 From Coq Require Import List NArith Bool Arith Lia.
-From VF Require Import Matcher.Model C18.Entry.
+From VF Require Import Matcher.Model Matcher.ParserFacts Matcher.EvalFacts C18.Entry C18.HoldsProof.
 Import ListNotations.
+
+(* ---- evaluation ---- *)
+(* match() on an expression tree is the documented truth table over the atoms, whenever the atoms
+   that are reached have a truth value (always, under the documented lookup semantics) *)
+Theorem C18_eval_spec : forall V truth e i,
+  (forall a, In a (atoms e) -> atom_clean V truth i a) ->
+  eval V truth e i = VB (denote truth e i).
+Proof. exact eval_spec. Qed.
+Print Assumptions C18_eval_spec.
+
+(* Python's short-circuit order: an exception is the exception of the last atom visited, and all
+   atoms visited before it produced truth values *)
+Theorem C18_eval_short_circuit : forall V truth e i t,
+  eval V truth e i = VExc t ->
+  exists pre a, visited V truth e i = pre ++ [a] /\ atom_val V truth a i = VExc t /\
+                Forall (fun b => exists v, atom_val V truth b i = VB v) pre.
+Proof. exact eval_exc. Qed.
+Print Assumptions C18_eval_short_circuit.
+
+(* ---- rejection ---- *)
+(* the parser's only failure is ParseError (-> ValueError): for every input string, provided
+   re.compile fails only with re.error / OverflowError and translated glob patterns compile *)
+Theorem C18_errors_are_ValueError : forall V compile,
+  overflow_escapes V = false ->
+  (forall a t, compile a <> COther t) ->
+  (forall a, a_type a = TGlob -> compile a = COk) ->
+  forall s, (exists e, parse V compile s = Ok e) \/ parse V compile s = Er ParseErr.
+Proof. exact parse_errors. Qed.
+Print Assumptions C18_errors_are_ValueError.
+
+(* the fuel of the model parser is sufficient for every input *)
+Theorem C18_fuel_sufficient : forall V compile s, parse V compile s <> Er OutOfFuel.
+Proof. exact parse_noof. Qed.
+Print Assumptions C18_fuel_sufficient.
+
+(* ---- cache ---- *)
+Theorem C18_cache_transparent : forall V compile c s, cache_sound V compile c ->
+  fst (cached_parse V compile c s) = parse V compile s /\
+  cache_sound V compile (snd (cached_parse V compile c s)).
+Proof. exact cached_parse_transparent. Qed.
+Print Assumptions C18_cache_transparent.
+
+(* ---- the executable checker accepts the model ---- *)
+Theorem C18_holds : forall c, valid c -> holds c (run_model c) = [].
+Proof. exact holds_model. Qed.
+Print Assumptions C18_holds.
+
+(* ---- behaviour that violates the property ---- *)
+(* before 86538e9: OverflowError of re.compile escaped *)
+Theorem C18_refuted_overflow_escapes :
+  exists c, overflow_escapes (c_var c) = true /\ holds c (run_model c) <> [].
+Proof. exists witness_overflow. split; [reflexivity | vm_compute; discriminate]. Qed.
+
+(* D14b (known finding): the TypeError of a nested lookup through a non-container escapes *)
+Theorem C18_refuted_lookup_escapes :
+  exists c, c_var c = current /\ holds c (run_model c) <> [].
+Proof. exists witness_lookup. split; [reflexivity | vm_compute; discriminate]. Qed.
+
+(* D14c (known finding): a parenthesised bare keyword is accepted as an ID pattern *)
+Theorem C18_refuted_bare_keyword :
+  exists c, c_var c = current /\ holds c (run_model c) <> [].
+Proof. exists witness_bare_keyword. split; [reflexivity | vm_compute; discriminate]. Qed.
+
+(* non-vacuity: a concrete valid case (not, and, parenthesised or, a data term) over two environments *)
+Example C18_nonvacuous :
+  valid example_case /\ run_model example_case = ([VB false; VB true], [VB false; VB true]).
+Proof. split; [exact example_valid | vm_compute; reflexivity]. Qed.
